@@ -1,0 +1,25 @@
+//! Thin public wrappers over crate-private pure functions so that an out-of-tree verification
+//! harness can call the real code in-process. Only compiled with `--cfg wild_verif`.
+
+use crate::alignment::Alignment;
+
+/// Returns the exponent of the accepted alignment or None if `raw` is rejected.
+#[must_use]
+pub fn alignment_new(raw: u64) -> Option<u8> {
+    Alignment::new(raw).ok().map(|a| a.exponent)
+}
+
+#[must_use]
+pub fn align_up(exponent: u8, value: u64) -> u64 {
+    Alignment { exponent }.align_up(value)
+}
+
+#[must_use]
+pub fn align_down(exponent: u8, value: u64) -> u64 {
+    Alignment { exponent }.align_down(value)
+}
+
+#[must_use]
+pub fn align_modulo(exponent: u8, ref_offset: u64, offset: u64) -> u64 {
+    Alignment { exponent }.align_modulo(ref_offset, offset)
+}
